@@ -474,6 +474,26 @@ func loopAt(fn *ssa.Function, b *ssa.BasicBlock) *loopInfo {
 
 // localResolver resolves source-level variable names at a loop header.
 func (x *Exec) localResolver(st *State, fr *Frame, at *ssa.BasicBlock) func(string) (SV, bool) {
+	return x.localResolverAt(st, fr, at, nil)
+}
+
+// localResolverAt resolves names at a program point inside block at: just before instruction `before` (the debug
+// references of that block that precede it count), or at the head of the block when before is nil.
+func (x *Exec) localResolverAt(st *State, fr *Frame, at *ssa.BasicBlock, before ssa.Instruction) func(string) (SV, bool) {
+	upTo := func(b *ssa.BasicBlock) int {
+		if b != at {
+			return len(b.Instrs)
+		}
+		if before == nil {
+			return 0
+		}
+		for i, ins := range b.Instrs {
+			if ins == before {
+				return i
+			}
+		}
+		return 0
+	}
 	return func(name string) (SV, bool) {
 		// phis in the header, then in dominating blocks (nearest first); a suffix __N skips the N nearest
 		// matches (the same-named variable of the N-th enclosing loop)
@@ -482,8 +502,8 @@ func (x *Exec) localResolver(st *State, fr *Frame, at *ssa.BasicBlock) func(stri
 			// (a block's debug references come after its phis)
 			name = strings.TrimSuffix(name, "__now")
 			for b := at; b != nil; b = b.Idom() {
-				if b != at {
-					for i := len(b.Instrs) - 1; i >= 0; i-- {
+				{
+					for i := upTo(b) - 1; i >= 0; i-- {
 						dr, ok := b.Instrs[i].(*ssa.DebugRef)
 						if !ok {
 							continue
@@ -561,10 +581,8 @@ func (x *Exec) localResolver(st *State, fr *Frame, at *ssa.BasicBlock) func(stri
 		var best SV
 		found := false
 		for b := at; b != nil && !found; b = b.Idom() {
-			for i := len(b.Instrs) - 1; i >= 0; i-- {
-				if b == at {
-					break // header's own instructions come after the cut point
-				}
+			// (at the head of a block its own instructions come after the point of interest)
+			for i := upTo(b) - 1; i >= 0; i-- {
 				if dr, ok := b.Instrs[i].(*ssa.DebugRef); ok {
 					if id, ok := dr.Expr.(*ast.Ident); ok && id.Name == name {
 						if v, ok := fr.vals[dr.X]; ok || isConstVal(dr.X) {
